@@ -301,3 +301,133 @@ func genArith(r *core.Rand, emit func([]string)) {
 	}
 	emit(ops)
 }
+
+// mergeDirs renders one stream: its directions' op lists merged at random, each direction's order
+// kept, the first direction's header block first.
+func mergeDirs(r *core.Rand, specs []dirSpec) []string {
+	if len(specs) == 1 {
+		return opsOf(specs[0])
+	}
+	a, b := opsOf(specs[0]), opsOf(specs[1])
+	ops := []string{a[0]}
+	a = a[1:]
+	for len(a) > 0 || len(b) > 0 {
+		if len(b) == 0 || (len(a) > 0 && r.Bool()) {
+			ops, a = append(ops, a[0]), a[1:]
+		} else {
+			ops, b = append(ops, b[0]), b[1:]
+		}
+	}
+	return ops
+}
+
+// genStreams: SEVERAL streams through the case's one factory value (h2.Config calls the same
+// factory for every stream of every connection). 2..4 streams with distinct ids, each either gRPC
+// (own encoding per direction, own header plan, own cuts, own END_STREAM placement) or not gRPC
+// (other or no content-type, look-alike content-types, a body of random bytes or of bytes that look
+// like a gRPC stream); scheduled one after the other in a random order (non-gRPC after gRPC, gRPC
+// after non-gRPC, ...) or with their frames interleaved. Every stream is judged on its own.
+func genStreams(r *core.Rand, cases int, emit func([]string)) {
+	ids := []int{1, 3, 5, 7, 9, 2, 11}
+	for i := 0; i < cases; i++ {
+		k := r.Range(2, 4)
+		perm := make([]int, len(ids))
+		for x := range perm {
+			perm[x] = x
+		}
+		for x := len(perm) - 1; x > 0; x-- {
+			y := r.Intn(x + 1)
+			perm[x], perm[y] = perm[y], perm[x]
+		}
+		var streams [][]string
+		var tabs []string
+		seen := map[string]bool{}
+		nGrpc, nPlain := 0, 0
+		for j := 0; j < k; j++ {
+			sid := ids[perm[j]]
+			isGrpc := r.Chance(3, 5)
+			if j == k-1 && nGrpc == 0 {
+				isGrpc = true
+			} else if j == k-1 && nPlain == 0 && r.Chance(2, 3) {
+				isGrpc = false
+			}
+			var specs []dirSpec
+			if isGrpc {
+				nGrpc++
+				dirs := []string{r.Pick("c", "s")}
+				if r.Chance(1, 3) {
+					dirs = []string{"c", "s"}
+				}
+				for _, dir := range dirs {
+					enc := r.Pick(encs...)
+					stream := smallStream(r, enc)
+					eos := pickEOS(r, len(stream))
+					frames := randomCuts(r, stream)
+					if r.Chance(1, 5) {
+						frames = sprinkleEmpty(r, frames, eos, 1)
+					}
+					specs = append(specs, dirSpec{dir: dir, enc: enc, hdrs: planFor(r, enc).fields(r, dir), frames: frames, eos: eos})
+					tabs = append(tabs, tables(enc, stream, seen)...)
+				}
+			} else {
+				nPlain++
+				dir := r.Pick("c", "s")
+				var hs []hf
+				if dir == "c" {
+					hs = append(hs, hf{":method", "POST"}, hf{":path", "/upload"})
+				} else {
+					hs = append(hs, hf{":status", "200"})
+				}
+				switch r.Intn(4) {
+				case 0:
+				case 1:
+					hs = append(hs, hf{"content-type", r.Pick("application/json", "text/plain", "application/octet-stream")})
+				case 2:
+					hs = append(hs, hf{"content-type", r.Pick("application/grpc-web", "application/grpcx", "Application/grpc")}, hf{"grpc-encoding", r.Pick(encs...)})
+				default:
+					hs = append(hs, hf{"grpc-encoding", "gzip"}, hf{"content-length", "7"})
+				}
+				var body []byte
+				switch r.Intn(3) {
+				case 0:
+					body = r.Bytes(r.Range(0, 40))
+				case 1: // looks like gRPC messages
+					body = streamOf("identity", genMsgs(r, 3, 8), 0)
+				default: // looks like the start of a long gRPC message: a parser would swallow it
+					body = append([]byte{0, 0, 0, 1, 0}, r.Bytes(r.Range(0, 20))...)
+				}
+				eos := r.Pick("last", "last", "empty", "trailers")
+				specs = append(specs, dirSpec{dir: dir, enc: "identity", hdrs: hs, frames: randomCuts(r, body), eos: eos})
+			}
+			ops := mergeDirs(r, specs)
+			for x := range ops {
+				ops[x] = fmt.Sprintf("@%d %s", sid, ops[x])
+			}
+			streams = append(streams, ops)
+		}
+		ops := append([]string{}, tabs...)
+		if r.Bool() {
+			core.Count("streams:sequential")
+			for _, st := range streams {
+				ops = append(ops, st...)
+			}
+		} else {
+			core.Count("streams:interleaved")
+			for {
+				var live []int
+				for x, st := range streams {
+					if len(st) > 0 {
+						live = append(live, x)
+					}
+				}
+				if len(live) == 0 {
+					break
+				}
+				x := live[r.Intn(len(live))]
+				ops, streams[x] = append(ops, streams[x][0]), streams[x][1:]
+			}
+		}
+		core.Count(fmt.Sprintf("streams:grpc=%d,plain=%d", nGrpc, nPlain))
+		emit(ops)
+	}
+}
